@@ -6,7 +6,7 @@
    of known type and class with their typed data. *)
 From RsdnsModel Require Import Base GenReader Cursor Names Labels Header Tracker RData Reader Script Iter.
 From RsdnsModel.Spec Require Import WireName LinearPass.
-From RsdnsModel.Proofs Require Import CursorSafe LabelsSound Views RandAccess Flavours IterAgree NameRefEq ReaderRefine QuestionsIter MessageRT EndToEnd.
+From RsdnsModel.Proofs Require Import CursorSafe LabelsSound Views RandAccess Flavours IterAgree NameRefEq ReaderRefine QuestionsIter MessageRT EndToEnd FieldLeaves.
 Open Scope N_scope.
 
 (* owned names of the two types: identical values, errors (with payloads) and resume positions,
@@ -148,3 +148,11 @@ Example C08_iterator_example :
   iter_records example_chain_msg (mkHeader 4660 33152 1 2 0 0) 19 =
   Ok ([mkRR 0 [x61; x2e] 1 5 60 (RD_Name 5 [x62; x2e]); mkRR 0 [x62; x2e] 1 1 30 (RD_A 84281096)], None).
 Proof. exact example_iterator. Qed.
+
+(* the fixed part of a record as the two views read it: the cursor-style reader (raw_marker_impl) and
+   the iterator (read_impl) both take TYPE, CLASS, TTL and RDLENGTH to be the big-endian words of
+   the message, unchanged — the expressions the source applies to them are re-translated each run *)
+Theorem C08_fields_are_the_words_read : forall w,
+  (marker_field_type w = w /\ marker_field_class w = w /\ marker_field_ttl w = w /\ marker_field_rdlen w = w) /\
+  (iter_field_type w = w /\ iter_field_class w = w /\ iter_field_ttl w = w /\ iter_field_rdlen w = w).
+Proof. exact fields_are_the_words_read. Qed.
